@@ -321,8 +321,11 @@ class Walker:
         for q, v in deltas.items():
             # a pulse's total shift (post-phase-shift minus drift) registers
             # only when non-zero; EOM enable/modify/disable corrections always
-            if always or circ(v, 0.0) > 0.0:
-                pm.shift(basis, q, v)
+            # total shift of a drift-corrected pulse: registered by the tree
+            # iff non-zero, which the observed (float-absorbed) delta cannot
+            # always tell -> a *possible* barrier (last_shift_t), a certain
+            # one (last_shift_nz) only when the reference visibly changed
+            pm.shift(basis, q, v)
 
     # ------------------------------------------------------------------ C01
     def atom_weights(self, cs) -> dict:
@@ -802,7 +805,10 @@ class Walker:
                          f"{name}: retarget lasts {s2[2]-s2[1]} < {frt}")
             lp = cv0.last_pulse()
             if lp is not None:
-                need = lp[2] + cv0.fall(lp)
+                # both readings of the pulse's fall time are admissible (EOM
+                # state of the slot / of the channel at retarget time)
+                need = lp[2] + min(cv0.fall(lp),
+                                   int(lp[0].fall_time(cv0.obj, in_eom_mode=cv0.in_eom)))
                 if s2[1] < need:
                     ctx.fail("C10.retarget", "before_ramp_down",
                              f"{name}: retarget begins {s2[1]} < {need}")
@@ -829,11 +835,6 @@ class Walker:
             api = ctx.must(lambda: seq.current_phase_ref(q, b), "C07.sum", "current_phase_ref")
             if api != v:
                 ctx.fail("C07.sum", "api!=tracker", "")
-            real_t = seq._basis_ref[b][q].phase.last_time
-            if real_t != pm.last_shift_t[(b, q)] and pm.nshifts[(b, q)]:
-                # a zero shift registers no change in the tree; accept earlier
-                if real_t > pm.last_shift_t[(b, q)]:
-                    ctx.fail("C07.shift_time", "later_than_last_use", f"({b},{q}): {real_t}")
         o = op["op"]
         name = self._op_channel(op)
         if o in ("add", "add_eom") and name in post.ch and name in pre.ch:
